@@ -5,6 +5,21 @@ import json, os, sys
 sys.path.insert(0, os.path.dirname(os.path.abspath(__file__)))
 
 CLAIMED = {
+ 'C01': dict(
+   category='exploration',
+   text=('Seeded search: every Assembly.calculate of every generated world (bundle '
+         'geometry, ducts, flowing/stagnant bypass, correlations, laminar..turbulent '
+         'flows, power shapes, gap model, conv_approx, tolerance, low-fidelity and '
+         'multi-region types) is one double-entry ledger line per coolant account '
+         '(interior, each flowing bypass): m cp dT against delivered power plus wall '
+         'heat measured by Fourier\'s law on the reported wall temperatures; tally-free '
+         'form in adiabatic worlds; effective-cp window in temperature-dependent worlds; '
+         'mixed-mean carry-over at region changes. Runs under seeded assembly schedules, '
+         'adversarial tick placement and forced correlation updates.'),
+   design_ref='DESIGN.md section 3, C01',
+   note=('Round-off closure only in constant-property worlds; wall flux relies on the '
+         'steady-slab duct solution (C11) as the measuring instrument; user-power inputs only.'),
+   technique='deterministic simulation: step driver with per-tick energy-ledger oracle under seeded schedules and tick placement'),
  'C06': dict(
    category='exploration',
    text=('Seeded search over worlds and schedules: every generated multi-assembly '
